@@ -690,6 +690,27 @@ func c19Codec(ctx *Ctx, res *Result, add func(int, string, string, interface{}))
 					add(-1, "slot-codec-disturbs-annotation", "annotation "+k+" appeared", nil)
 				}
 			}
+			// a second in-memory copy of the same object version (the informer's original next to the copy being
+			// edited): the two answer independently of each other, whatever the order of the calls
+			twin := &metaObj{}
+			twin.UID, twin.ResourceVersion = o.UID, o.ResourceVersion
+			twinWant := sets.NewInt32()
+			if base != nil {
+				twin.Annotations = map[string]string{}
+				for k, v := range base {
+					twin.Annotations[k] = v
+				}
+				if _, ok := base[helper.DeleteSlotsAnn]; ok {
+					twinWant.Insert(9)
+				}
+			}
+			res.Stats["slot_codec_twin_reads"]++
+			if got := helper.GetDeleteSlots(twin); !got.Equal(twinWant) {
+				add(-1, "slot-codec-copies-not-independent", fmt.Sprintf("the untouched copy (annotations %v) reads %v after SetDeleteSlots(%v) on the other copy", base, got.List(), s), nil)
+			}
+			if got := helper.GetDeleteSlots(o); !got.Equal(want) {
+				add(-1, "slot-codec-copies-not-independent", fmt.Sprintf("the edited copy reads %v instead of %v after the untouched copy was read", got.List(), s), nil)
+			}
 			// add = union
 			extra := cases[(ci*7+3)%len(cases)]
 			if err := helper.AddDeleteSlots(o, sets.NewInt32(extra...)); err != nil {
